@@ -42,6 +42,22 @@ class _Sink(object):
         raise OSError("sink")
 
 
+class _AsciiSink(_Sink):
+    """stdout as under PYTHONIOENCODING=ascii: text outside ASCII cannot be written."""
+    encoding = "ascii"
+
+    def write(self, s):
+        s.encode("ascii")        # raises UnicodeEncodeError exactly as the real stream would
+        return len(s)
+
+
+class _ClosedSink(_Sink):
+    """a closed stdout (daemon, closed pipe): every write fails"""
+
+    def write(self, s):
+        raise ValueError("I/O operation on closed file.")
+
+
 def scratch():
     """Private scratch directory of this process (removed at exit)."""
     global _SCRATCH
@@ -67,7 +83,7 @@ def bootstrap(quiet=True):
     os.environ["TMPDIR"] = tmp
     tempfile.tempdir = tmp
     if quiet:
-        sys.stdout = _Sink()
+        sys.stdout = {"ascii": _AsciiSink, "closed": _ClosedSink}.get(os.environ.get("VERIF_STDOUT"), _Sink)()
         sys.stderr = _Sink()
     import odml  # noqa
     got = os.path.dirname(os.path.dirname(os.path.abspath(odml.__file__)))
